@@ -125,6 +125,10 @@ pub enum InitKind {
     StreamingHighLoad,
     /// S3 in the low-activity batch regime (4)
     StreamingLowLoad,
+    /// S3 (classic, guard as given) with the window vector moved to an edge of its range: the floor region
+    /// (1000, 1037, 1100, 1100: walked there by real NAK runs and global ACK steps) or the ceiling region
+    /// (60000, 59999, 59972, 59972)
+    WindowEdge { floor: bool },
 }
 
 fn set_classic(w: &World) {
@@ -278,6 +282,32 @@ impl StreamModel {
                 self.script(env, &mut s, SEv::Tflush);
                 assert!(s.w.connections[link].stall_latched(), "scripted prefix: link {link} not latched");
                 assert!(s.w.connections[link].is_stall_gated(), "scripted prefix: link {link} not gated");
+                s
+            }
+            InitKind::WindowEdge { floor } => {
+                let mut s = self.fresh(env, true);
+                self.stream(env, &mut s, 40, true);
+                let now = s.w.now;
+                for (l, c) in s.w.connections.iter_mut().enumerate() {
+                    if floor {
+                        let mut k = 0;
+                        let target = [1000, 1000, 1100, 1100][l.min(3)];
+                        while c.window > target && k < 1000 {
+                            let q = 500_000 + (l as i32) * 1000 + k;
+                            c.register_packet(q, now);
+                            c.handle_nak(q, now);
+                            k += 1;
+                        }
+                        if l == 1 {
+                            for _ in 0..37 {
+                                c.handle_srtla_ack_global();
+                            }
+                        }
+                    } else {
+                        c.window = [60000, 59999, 59972, 59972][l.min(3)];
+                    }
+                }
+                s.ref_windows = s.w.connections.iter().map(|c| c.window).collect();
                 s
             }
             InitKind::Pulled { link } => {
